@@ -61,6 +61,15 @@ def is_valid_name(word):
     return False
 
 
+def quote_docstring(doc: str):
+    """Return a triple-quoted string literal that evaluates to ``doc``"""
+    doc = doc.replace("\\", "\\\\")
+    if doc.endswith('"'):
+        doc = doc[:-1] + '\\"'
+    doc = doc.replace('"""', '""\\"')
+    return '"""' + doc + '"""'
+
+
 def get_module(module):
 
     if isinstance(module, types.ModuleType):
